@@ -329,7 +329,15 @@ Fixpoint bremove (k : bytes) (l : list (bytes * N)) : list (bytes * N) :=
   | (k', v) :: r => if bytes_eqb k k' then bremove k r else (k', v) :: bremove k r
   end.
 
-Definition bset (k : bytes) (v : N) (l : list (bytes * N)) : list (bytes * N) := (k, v) :: bremove k l.
+(* the map keeps its entries in the order they were made (oldest first: the `ctime` of DeflatedToolchain);
+   incrementing a counter keeps the place, a (re)made entry goes to the end *)
+Fixpoint bupd (k : bytes) (v : N) (l : list (bytes * N)) : list (bytes * N) :=
+  match l with
+  | [] => []
+  | (k', v') :: r => if bytes_eqb k k' then (k', v) :: r else (k', v') :: bupd k v r
+  end.
+
+Definition bset (k : bytes) (v : N) (l : list (bytes * N)) : list (bytes * N) := bremove k l ++ [(k, v)].
 
 Fixpoint bmem (k : bytes) (l : list bytes) : bool :=
   match l with [] => false | x :: r => bytes_eqb k x || bmem k r end.
@@ -338,7 +346,7 @@ Fixpoint bdel (k : bytes) (l : list bytes) : list bytes :=
   match l with [] => [] | x :: r => if bytes_eqb k x then bdel k r else x :: bdel k r end.
 
 Record builder : Type := {
-  dirmap : list (bytes * N);     (* toolchain_dir_map: id -> build_count *)
+  dirmap : list (bytes * N);     (* toolchain_dir_map: id -> build_count, oldest entry first *)
   unpacked : list bytes;         (* toolchains/<id> directories that exist *)
   live : list bytes;             (* builds/<name> directories that exist *)
 }.
@@ -346,26 +354,39 @@ Record builder : Type := {
 Definition builder0 : builder := {| dirmap := []; unpacked := []; live := [] |}.
 
 Inductive bop : Type :=
-| BPrepare (id : bytes) (in_cache : bool)   (* prepare_overlay_dirs; in_cache: tccache.get succeeds *)
+| BPrepare (id : bytes) (in_cache : bool) (cache_len : nat)
+     (* prepare_overlay_dirs; in_cache: tccache.get succeeds; cache_len: tccache.len() *)
 | BFinish (nm : bytes)                      (* finish_overlay of the build directory builds/<nm> *)
-| BEvict (id : bytes).                      (* the "remove old un-compressed toolchain" branch *)
+| BEvict (id : bytes).                      (* an unpacked toolchain and its map entry disappear *)
 
-(* prepare_overlay_dirs, under the map's lock: Some name = the build directory created *)
-Definition prepare (b : builder) (id : bytes) (in_cache : bool) : builder * option bytes :=
+(* "if toolchain_dir_map.len() > tccache.len()": the older half of the entries is forgotten and their
+   unpacked directories removed *)
+Definition prune (cache_len : nat) (m : list (bytes * N)) (u : list bytes) : list (bytes * N) * list bytes :=
+  if Nat.ltb cache_len (length m) then
+    let k := Nat.div (length m) 2 in
+    (skipn k m, fold_left (fun u e => bdel (fst e) u) (firstn k m) u)
+  else (m, u).
+
+(* prepare_overlay_dirs, under the map's lock: Some name = the build directory created.
+   THE GUARD: fs::create_dir(build_dir) fails when the directory exists, i.e. when a job that is still running
+   owns it (the counter restarts when the map entry of a toolchain is made anew). *)
+Definition prepare (b : builder) (id : bytes) (in_cache : bool) (cache_len : nat) : builder * option bytes :=
   if negb (valid_id id) then (b, None)
   else
     let known := match blookup id (dirmap b) with Some _ => bmem id (unpacked b) | None => false end in
     let r :=
       if known then
         match blookup id (dirmap b) with
-        | Some c => Some ({| dirmap := bset id (c + 1) (dirmap b); unpacked := unpacked b; live := live b |}, c + 1)
+        | Some c => Some ({| dirmap := bupd id (c + 1) (dirmap b); unpacked := unpacked b; live := live b |}, c + 1)
         | None => None
         end
       else if bmem id (unpacked b) then None                 (* create_dir: AlreadyExists *)
       else if negb in_cache then
         (* the directory was created, then "expected toolchain, but not available" *)
         Some ({| dirmap := dirmap b; unpacked := id :: unpacked b; live := live b |}, 0)
-      else Some ({| dirmap := bset id 1 (dirmap b); unpacked := id :: unpacked b; live := live b |}, 1)
+      else
+        let '(m, u) := prune cache_len (bset id 1 (dirmap b)) (id :: unpacked b) in
+        Some ({| dirmap := m; unpacked := u; live := live b |}, 1)
     in
     match r with
     | None => (b, None)
@@ -378,7 +399,7 @@ Definition prepare (b : builder) (id : bytes) (in_cache : bool) : builder * opti
 
 Definition bstep (b : builder) (o : bop) : builder * option bytes :=
   match o with
-  | BPrepare id c => prepare b id c
+  | BPrepare id c n => prepare b id c n
   | BFinish nm => ({| dirmap := dirmap b; unpacked := unpacked b; live := bdel nm (live b) |}, None)
   | BEvict id => ({| dirmap := bremove id (dirmap b); unpacked := bdel id (unpacked b); live := live b |}, None)
   end.
@@ -485,9 +506,11 @@ Definition unpack1 (t : option tree) (m : member) : option tree :=
       end
   end.
 
-Definition tool_content : bytes := bs "TOOL".
-Definition toolchain_tree : tree :=
-  [ ([bs "tc_lib"], NDir); ([bs "tc_bin"; bs "tool"], NFile tool_content); ([bs "tc_bin"], NDir) ].
+(* the two toolchain archives of the hook: same layout, different content (kind 1, kind 2) *)
+Definition tool_content (kind : N) : bytes := if kind =? 2 then bs "TOOL2" else bs "TOOL".
+Definition toolchain_tree_of (kind : N) : tree :=
+  [ ([bs "tc_lib"], NDir); ([bs "tc_bin"; bs "tool"], NFile (tool_content kind)); ([bs "tc_bin"], NDir) ].
+Definition toolchain_tree : tree := toolchain_tree_of 1.
 
 (* the names join_suffix leaves of a client path, in the job root [t]; None = too many links *)
 Definition inside (t : tree) (cwd p : bytes) : option (list name) :=
@@ -554,7 +577,8 @@ Definition make_dirs (t : tree) (cwd : bytes) (outs : list bytes) : option tree 
    root; it never goes through a symlink *)
 Inductive jwrite : Type :=
 | WFile (p c : bytes)
-| WLink (p tgt : bytes).
+| WLink (p tgt : bytes)
+| WReplace (p tgt : bytes).   (* rm -rf p; ln -s tgt p *)
 
 Definition job_write (t : tree) (cwd : bytes) (w : jwrite) : tree :=
   match w with
@@ -583,15 +607,48 @@ Definition job_write (t : tree) (cwd : bytes) (w : jwrite) : tree :=
                         end
                end
            end
+  | WReplace wp tgt =>
+      let p := inside_lex cwd wp in
+      if existsb (is_link t) (proper_prefixes p) then t
+      else match p with
+           | [] => t
+           | _ =>
+               (* everything at and below p goes *)
+               let t0 := filter (fun e => negb (is_prefix p (fst e))) t in
+               if existsb (is_file t0) (proper_prefixes p) then t0
+               else match mkdir_all t0 (removelast p) with
+                    | Some t' => (p, NLink tgt) :: t'
+                    | None => t0
+                    end
+           end
   end.
 
-Record server : Type := {
-  cached : list bytes;                (* toolchains in the TcCache *)
-  jobs : list (N * bytes);            (* job_toolchains *)
-  bld : builder;
+Record held_job : Type := {
+  h_key : N;
+  h_name : bytes;       (* its build directory builds/<h_name> *)
+  h_tree : tree;        (* its root after the compile's writes *)
+  h_cwd : bytes;
+  h_outs : list bytes;
 }.
 
-Definition server0 : server := {| cached := []; jobs := []; bld := builder0 |}.
+Record server : Type := {
+  cap : N;                            (* archives the TcCache has room for; 0 = no limit *)
+  cached : list bytes;                (* toolchains in the TcCache, most recently stored first *)
+  kinds : list (bytes * N);           (* which archive (1 or 2) a cached / unpacked id stands for *)
+  jobs : list (N * bytes);            (* job_toolchains *)
+  bld : builder;
+  held : list held_job;               (* jobs whose compile is still running *)
+}.
+
+Definition server0 (c : N) : server :=
+  {| cap := c; cached := []; kinds := []; jobs := []; bld := builder0; held := [] |}.
+
+Definition with_jobs (s : server) (j : list (N * bytes)) : server :=
+  {| cap := cap s; cached := cached s; kinds := kinds s; jobs := j; bld := bld s; held := held s |}.
+Definition with_bld (s : server) (b : builder) : server :=
+  {| cap := cap s; cached := cached s; kinds := kinds s; jobs := jobs s; bld := b; held := held s |}.
+Definition with_held (s : server) (h : list held_job) : server :=
+  {| cap := cap s; cached := cached s; kinds := kinds s; jobs := jobs s; bld := bld s; held := h |}.
 
 Fixpoint jlookup (j : N) (l : list (N * bytes)) : option bytes :=
   match l with
@@ -607,27 +664,35 @@ Fixpoint jremove (j : N) (l : list (N * bytes)) : list (N * bytes) :=
 
 Inductive assign_res := AReady | ANeed | AErr.
 Inductive submit_res := SSkipped | SSuccess | SNotFound | SCannotCache.
-Inductive run_res := RSkipped | RComplete | RNotFound | RErr.
+Inductive run_res := RSkipped | RComplete | RNotFound | RErr | RRunning | RNotRunning.
 
 (* handle_assign_job *)
 Definition assign (s : server) (j : N) (id : bytes) : server * assign_res :=
   if negb (valid_id id) then (s, AErr)
   else
-    ({| cached := cached s; jobs := (j, id) :: jobs s; bld := bld s |},
+    (with_jobs s ((j, id) :: jobs s),
      if bmem id (cached s) then AReady else ANeed).
 
-(* handle_submit_toolchain; [genuine] = the uploaded archive hashes to the id *)
-Definition submit (s : server) (j : N) (genuine : bool) : server * submit_res :=
+(* storing an archive in a cache with room for [cap] archives evicts the least recently stored ones
+   (only cap = 0 (no limit) and cap = 1 are used by the correspondence legs) *)
+Definition cache_store (c : N) (id : bytes) (l : list bytes) : list bytes :=
+  if c =? 0 then id :: l else firstn (N.to_nat c) (id :: l).
+
+(* handle_submit_toolchain; [genuine] = 0: the uploaded archive does not hash to the id; 1 / 2: it is the
+   hook's first / second archive and hashes to the id *)
+Definition submit (s : server) (j : N) (genuine : N) : server * submit_res :=
   match jlookup j (jobs s) with
   | None => (s, SNotFound)
   | Some id =>
       if bmem id (cached s) then (s, SSuccess)
-      else if valid_id id && genuine then
-        ({| cached := id :: cached s; jobs := jobs s; bld := bld s |}, SSuccess)
+      else if valid_id id && negb (genuine =? 0) then
+        ({| cap := cap s; cached := cache_store (cap s) id (cached s); kinds := (id, genuine) :: kinds s;
+            jobs := jobs s; bld := bld s; held := held s |}, SSuccess)
       else (s, SCannotCache)
   end.
 
 Record job_obs : Type := {
+  o_head : N;                              (* 0 job, 1 start, 2 release *)
   o_assign : assign_res;
   o_submit : submit_res;
   o_run : run_res;
@@ -638,7 +703,7 @@ Record job_obs : Type := {
 
 Record job_req : Type := {
   r_id : bytes;
-  r_genuine : bool;
+  r_genuine : N;
   r_run : bool;
   r_cwd : bytes;
   r_outs : list bytes;
@@ -646,52 +711,125 @@ Record job_req : Type := {
   r_writes : list jwrite;
 }.
 
-(* handle_run_job with the overlay builder *)
-Definition run (s : server) (j : N) (r : job_req) : server * (run_res * option bytes * tree * list (bytes * bytes)) :=
+Definition kind_of (s : server) (id : bytes) : N :=
+  match blookup id (kinds s) with Some k => k | None => 1 end.
+
+Inductive begun : Type :=
+| BNotFound
+| BFailed                                   (* prepare_overlay_dirs refused / failed: nothing of the job exists *)
+| BAborted (nm : bytes)                     (* the build directory exists, the job did not get to its compile *)
+| BRunning (nm : bytes) (t1 t2 : tree).     (* t1: what the compile found, t2: after its writes *)
+
+(* handle_run_job with the overlay builder, up to the point where the compile has done its writes *)
+Definition run_begin (s : server) (j : N) (r : job_req) : server * begun :=
   match jlookup j (jobs s) with
-  | None => (s, (RNotFound, None, [], []))
+  | None => (s, BNotFound)
   | Some id =>
-      let s1 := {| cached := cached s; jobs := jremove j (jobs s); bld := bld s |} in
-      let '(b', onm) := prepare (bld s1) id (bmem id (cached s1)) in
+      let s1 := with_jobs s (jremove j (jobs s)) in
+      let '(b', onm) := prepare (bld s1) id (bmem id (cached s1)) (length (cached s1)) in
+      let s2 := with_bld s1 b' in
       match onm with
-      | None => ({| cached := cached s1; jobs := jobs s1; bld := b' |}, (RErr, None, [], []))
+      | None => (s2, BFailed)
       | Some nm =>
-          (* finish_overlay always runs *)
-          let b'' := fst (bstep b' (BFinish nm)) in
-          let s2 := {| cached := cached s1; jobs := jobs s1; bld := b'' |} in
-          let tgt := Some (push (push s_builds nm) s_target) in
-          match fold_left unpack1 (r_inputs r) (Some toolchain_tree) with
-          | None => (s2, (RErr, None, [], []))
+          match fold_left unpack1 (r_inputs r) (Some (toolchain_tree_of (kind_of s id))) with
+          | None => (s2, BAborted nm)
           | Some t0 =>
               match make_dirs t0 (r_cwd r) (r_outs r) with
-              | None => (s2, (RErr, None, [], []))
+              | None => (s2, BAborted nm)
               | Some t1 =>
-                  if existsb (N.eqb 0) (r_cwd r) then (s2, (RErr, None, [], []))   (* --chdir argument *)
-                  else
-                  let t2 := fold_left (fun t w => job_write t (r_cwd r) w) (r_writes r) t1 in
-                  match collect t2 (r_cwd r) (r_outs r) with
-                  | None => (s2, (RErr, tgt, t1, []))
-                  | Some outs => (s2, (RComplete, tgt, t1, outs))
-                  end
+                  if existsb (N.eqb 0) (r_cwd r) then (s2, BAborted nm)   (* --chdir argument *)
+                  else (s2, BRunning nm t1 (fold_left (fun t w => job_write t (r_cwd r) w) (r_writes r) t1))
               end
           end
       end
   end.
 
-Definition do_job (s : server) (j : N) (r : job_req) : server * job_obs :=
+(* finish_overlay *)
+Definition finish (s : server) (nm : bytes) : server := with_bld s (fst (bstep (bld s) (BFinish nm))).
+
+Definition target_of (nm : bytes) : bytes := push (push s_builds nm) s_target.
+
+(* the whole of handle_run_job *)
+Definition run (s : server) (j : N) (r : job_req) : server * (run_res * option bytes * tree * list (bytes * bytes)) :=
+  match run_begin s j r with
+  | (s', BNotFound) => (s', (RNotFound, None, [], []))
+  | (s', BFailed) => (s', (RErr, None, [], []))
+  | (s', BAborted nm) => (finish s' nm, (RErr, None, [], []))
+  | (s', BRunning nm t1 t2) =>
+      match collect t2 (r_cwd r) (r_outs r) with
+      | None => (finish s' nm, (RErr, Some (target_of nm), t1, []))
+      | Some outs => (finish s' nm, (RComplete, Some (target_of nm), t1, outs))
+      end
+  end.
+
+Definition assign_submit (s : server) (j : N) (r : job_req) : server * assign_res * submit_res :=
   let '(s1, a) := assign s j (r_id r) in
   let '(s2, sb) := match a with
                    | AReady => (s1, SSkipped)
                    | _ => submit s1 j (r_genuine r)
                    end in
+  (s2, a, sb).
+
+Definition do_job (s : server) (j : N) (r : job_req) : server * job_obs :=
+  let '(s2, a, sb) := assign_submit s j r in
   if r_run r then
     let '(s3, (rr, tg, sn, outs)) := run s2 j r in
-    (s3, {| o_assign := a; o_submit := sb; o_run := rr; o_target := tg; o_snap := sn; o_outputs := outs |})
+    (s3, {| o_head := 0; o_assign := a; o_submit := sb; o_run := rr; o_target := tg; o_snap := sn; o_outputs := outs |})
   else
-    (s2, {| o_assign := a; o_submit := sb; o_run := RSkipped; o_target := None; o_snap := []; o_outputs := [] |}).
+    (s2, {| o_head := 0; o_assign := a; o_submit := sb; o_run := RSkipped; o_target := None; o_snap := []; o_outputs := [] |}).
 
-Fixpoint do_jobs (s : server) (j : N) (rs : list job_req) : list (job_obs * server) :=
-  match rs with
-  | [] => []
-  | r :: rest => let '(s', o) := do_job s j r in (o, s') :: do_jobs s' (j + 1) rest
+(* the same request, but the compile stays running until it is released *)
+Definition do_start (s : server) (j key : N) (r : job_req) : server * job_obs :=
+  let '(s2, a, sb) := assign_submit s j r in
+  let ob rr tg sn := {| o_head := 1; o_assign := a; o_submit := sb; o_run := rr; o_target := tg; o_snap := sn;
+                        o_outputs := [] |} in
+  if r_run r then
+    match run_begin s2 j r with
+    | (s', BNotFound) => (s', ob RNotFound None [])
+    | (s', BFailed) => (s', ob RErr None [])
+    | (s', BAborted nm) => (finish s' nm, ob RErr None [])
+    | (s', BRunning nm t1 t2) =>
+        (with_held s' ({| h_key := key; h_name := nm; h_tree := t2; h_cwd := r_cwd r; h_outs := r_outs r |} :: held s'),
+         ob RRunning (Some (target_of nm)) t1)
+    end
+  else (s2, ob RSkipped None []).
+
+Fixpoint take_held (key : N) (l : list held_job) : option (held_job * list held_job) :=
+  match l with
+  | [] => None
+  | h :: r => if h_key h =? key then Some (h, r)
+              else match take_held key r with
+                   | Some (x, r') => Some (x, h :: r')
+                   | None => None
+                   end
   end.
+
+Definition do_release (s : server) (key : N) : server * job_obs :=
+  let ob rr outs := {| o_head := 2; o_assign := AReady; o_submit := SSkipped; o_run := rr; o_target := None;
+                       o_snap := []; o_outputs := outs |} in
+  match take_held key (held s) with
+  | None => (s, ob RNotRunning [])
+  | Some (h, rest) =>
+      let s' := finish (with_held s rest) (h_name h) in
+      match collect (h_tree h) (h_cwd h) (h_outs h) with
+      | None => (s', ob RErr [])
+      | Some outs => (s', ob RComplete outs)
+      end
+  end.
+
+Inductive sop : Type :=
+| OJob (r : job_req)
+| OStart (key : N) (r : job_req)
+| ORelease (key : N).
+
+(* job ids are handed out 1, 2, ... to job and start steps *)
+Fixpoint do_ops (s : server) (j : N) (ops : list sop) : list (job_obs * server) :=
+  match ops with
+  | [] => []
+  | OJob r :: rest => let '(s', o) := do_job s j r in (o, s') :: do_ops s' (j + 1) rest
+  | OStart k r :: rest => let '(s', o) := do_start s j k r in (o, s') :: do_ops s' (j + 1) rest
+  | ORelease k :: rest => let '(s', o) := do_release s k in (o, s') :: do_ops s' j rest
+  end.
+
+Definition do_jobs (s : server) (j : N) (rs : list job_req) : list (job_obs * server) :=
+  do_ops s j (map OJob rs).
